@@ -9,7 +9,7 @@ from __future__ import annotations
 import ast
 from typing import Any, Optional
 
-from ..absval import BoundMethod, Interp, Obj, Outcome, Sym, Unknown, enumerate_paths
+from ..absval import Vec, BoundMethod, Interp, Obj, Outcome, Sym, Unknown, enumerate_paths
 from ..model import AnchorMissing, Class, Func, Program, Undecided, norm, walk_no_nested
 from .common import make_metric_objs, metric_enum_class, metric_registry
 
@@ -137,6 +137,11 @@ class ResultInterp(Interp):
         if name.startswith("kernel:"):
             r.kernel_calls.append((name, list(args), dict(kwargs), node))
             return Tagged(name, args, kwargs)
+        if name.startswith("numpy.") and args and (any(isinstance(a, Vec) for a in args) or (isinstance(args[0], (list, tuple)) and args[0] and all(isinstance(x, str) for x in args[0]))):
+            # vectors of names / of concrete values: numpy's set routines, unique, sort, selections
+            v_ = self._vec_call(name, args, kwargs, node)
+            if v_ is not NotImplemented:
+                return v_
         if name in REDUCER_FUNCS or name in ("max", "min", "sum", "len", "math.sqrt", "math.fsum", "statistics.pstdev", "statistics.stdev", "statistics.mean", "statistics.fmean"):
             a = [tuple(x) if isinstance(x, list) else x for x in args]
             if name in ("numpy.float64", "numpy.float32") and a and a[0] is None:
